@@ -109,7 +109,8 @@ impl Check for C20 {
         if tier != Tier::Thorough {
             return None;
         }
-        Some((0 .. 16).map(|i| (i * 40, 40)).collect())
+        // ~10 s per name under the interpreter (regex construction); the shipped table (case 0) is left to the native run
+        Some((0 .. 16).map(|i| (1 + i * 12, 12)).collect())
     }
     fn rule(&self) -> String {
         "names generated from the documented grammar (ASCII and non-ASCII words, dotted acronyms, roman numerals at any non-first position, leading / inner / trailing numbers of 1-20 digits, glued letter-digit words, hyphenated compounds, '44-'45 style ranges, possessives, a bracketed year or edition, a ' - Mod' suffix) and lists of 1-4 such games. Oracle: no panic; for a single game the set E of expected ids reported for a wrong proposal is the same for two different wrong proposals, every member of E is accepted when proposed, and a candidate id (expected id, case change, truncation, random string) is accepted iff it is in E; the shipped GAMES table passes. non-trivial = a name for which E was computed and all members checked; distinct by name".into()
